@@ -56,8 +56,11 @@ CHECK_DEADLOCK FALSE
 """
 
 
-def marking_model(ctx, K, maxeta, aniso, rng):
-    """Dorfler.tla exhaustive + replay of every state into the real code."""
+def marking_model(ctx, K, maxeta, aniso, rng, knife_only=False):
+    """Dorfler.tla exhaustive + replay of every state into the real code.
+    knife_only: replay only the states where an integer partial sum equals theta^2 * total for a theta whose
+    square is not representable (rounding decides the marking there, so the marking clause is not judged, but
+    the call must still succeed and leave a legal mesh: clause call-failed and the state clauses)."""
     thset = "{" + ", ".join("<<%d, %d>>" % t for t in THETAS) + "}"
     dump = os.path.join(tlc._scratch(), "dorfler")
     res = tlc.run_tlc("MCDorfler", CFG_DORFLER % (K, maxeta), timeout=1800, dump=dump,
@@ -71,6 +74,8 @@ def marking_model(ctx, K, maxeta, aniso, rng):
                       {"tlc_output_tail": res.output[-2000:]})
         return st
     cases = [(tuple(s["eta"]), tuple(s["th"])) for s in tlc.read_dump(dump + ".dump")]
+    if knife_only:
+        cases = [(e, t) for e, t in cases if sum(e) > 0 and _knife(sum(e), t[0], t[1], _theta_float(*t))]
     import shutil
     shutil.rmtree(os.path.dirname(dump), ignore_errors=True)
     st["cases"] = len(cases)
@@ -116,7 +121,7 @@ def marking_model(ctx, K, maxeta, aniso, rng):
             continue
         for l, clause in bad:
             eta, th, pth = meta[l - 1] if meta[l - 1] else ((), (), ())
-            _report(ctx, clause, "marking-%s-K%d" % ("aniso" if aniso else "iso", K),
+            _report(ctx, clause, "marking-%s-K%d%s" % ("aniso" if aniso else "iso", K, "-knife" if knife_only else ""),
                     {"layout": lay.key(), "maxl": lay.maxl, "history": list(pth), "eta": list(eta), "theta2": list(th),
                      "event": events[l - 1]})
     st["replayed"] = judged
@@ -329,6 +334,9 @@ def run(prop, tier, seed):
     mk = [marking_model(ctx, 4, 3, False, rng), marking_model(ctx, 6 if not quick else 4, 2 if not quick else 3, True, rng)]
     if not quick:
         mk.append(marking_model(ctx, 5, 4, False, rng))
+    else:
+        mk.append(marking_model(ctx, 5, 4, False, rng, knife_only=True))
+    mk.append(marking_model(ctx, 6, 4 if not quick else 3, True, rng, knife_only=True))
     ctx.log("marking %s" % mk)
     fam = [((1, 2, False), 2, 3), ((1, 3, True), 2, 3), ((2, 2, False), 1, 2), ((1, 1, True), 3, 4)]
     ref = []
